@@ -175,7 +175,8 @@ type anchors struct {
 	emit          *ssa.Function // (*Eval).emit: (code.Opcode, ...int) int
 	changeOperand *ssa.Function // (*Eval) func(int,int) storing into instructions
 	addConstant   *ssa.Function // (*Eval) func(object.Object) int
-	vmRun         *ssa.Function // (*vm.VM).Run
+	vmRun         *ssa.Function // the interpreter: the method of vm.VM that holds the dispatch loop ((*VM).Run, or the function Run hands over to)
+	vmEntry       *ssa.Function // (*vm.VM).Run, the entry the rest of the library calls
 	vmNew         *ssa.Function
 	prepare       *ssa.Function
 	execute       *ssa.Function
@@ -267,6 +268,27 @@ func (p *Program) Anchors() (*anchors, []string) {
 				a.evalNew = fn
 			case Mod + "/vm":
 				a.vmNew = fn
+			}
+		}
+	}
+	// the dispatch loop may have been moved out of Run into a function of its
+	// own: the rules about handlers follow it there
+	a.vmEntry = a.vmRun
+	if a.vmRun != nil && p.FuncDecl(a.vmRun) != nil {
+		nCases := func(f *ssa.Function) int {
+			if p.FuncDecl(f) == nil || p.FuncDecl(f).Body == nil {
+				return 0
+			}
+			if sw := dispatchSwitch(p, f); sw != nil {
+				return len(sw.Body.List)
+			}
+			return 0
+		}
+		if nCases(a.vmRun) < 10 {
+			for _, g := range staticCalleesWithin(p, a.vmRun, 2) {
+				if recvNamed(g, "vm", "VM") && nCases(g) >= 10 {
+					a.vmRun = g
+				}
 			}
 		}
 	}
